@@ -5,7 +5,7 @@
    C03.Model.step keeps it and emits only legal events ([step_inv]); so every history is legal
    up to its end or up to the first contract violation, never runs out of fuel, and a completed
    history followed by the two destructors leaves nothing alive. *)
-From Tetl Require Import Lib.Base C06a.Instances C03.Trace C03.Model C03.ProofsTrace C03.ProofsGen C03.ProofsVec.
+From Tetl Require Import Lib.Base C06a.Instances C03.Trace C03.Model C03.ProofsTrace C03.ProofsGen C03.ProofsVec C03.ProofsRun.
 From Coq Require Import Arith ZifyBool.
 Local Open Scope nat_scope.
 
@@ -174,7 +174,7 @@ Proof.
   assert (Hext : forall j, a (Ext j) = false) by (intros j; pw).
   unfold step_sv. cbv zeta.
   destruct o as [t x|t x|t x|t|t pos x|t pos x|t pos k x|t pos xs|t pos xs|t pos x|t pos|t f l|t|t k|t k x|t k x|t xs
-                 | |t|t|t|t|t|t pid|t x|t|t|t|t x|t x|t x|t x|t x|t x|t|t];
+                 | |t|t|t|t|t|t pid|t x|t|t|t|t x|t x|t x|t x|t x|t x|t|t|t|t|t|t|t x|t x|t x|t x|t x|t x|t x|t x];
     try (apply triple_ret; exact Hinv).
   - (* PushBackRv *)
     eapply spec_on with (P := fun n' => n' = S (sel t s) /\ n' <= cap); [exact Hinv| |lia].
@@ -276,6 +276,36 @@ Proof.
     apply spec_with_ext; [exact Hext|]. intros a1 H1.
     apply spec_erase_if; [intros i; destruct t; pw|apply elems_length].
   - (* SelfSwap *) apply spec_self_swap. exact Hinv.
+  - (* SetInsertRv *)
+    eapply spec_on with (P := fun n' => n' <= cap); [exact Hinv| |lia].
+    apply spec_with_ext; [exact Hext|]. intros a1 H1.
+    apply spec_set_insert; [intros i; destruct t; pw|destruct t; cbn [sel]; lia|apply elems_length|pw|pw].
+  - (* SetInsertCr *)
+    eapply spec_on with (P := fun n' => n' <= cap); [exact Hinv| |lia].
+    apply spec_with_ext; [exact Hext|]. intros a1 H1.
+    apply spec_set_insert_tmp; [intros i; destruct t; pw|destruct t; cbn [sel]; lia|apply elems_length|cbn; pw|pw|pw].
+  - (* SetEmplace *)
+    eapply spec_on with (P := fun n' => n' <= cap); [exact Hinv| |lia].
+    apply spec_set_insert_tmp; [intros i; destruct t; pw|destruct t; cbn [sel]; lia|apply elems_length|reflexivity|pw|pw].
+  - (* SetEraseKey *)
+    eapply spec_on with (P := fun n' => n' <= cap); [exact Hinv| |lia].
+    apply spec_with_ext; [exact Hext|]. intros a1 H1.
+    apply spec_set_erase_key; [intros i; destruct t; pw|destruct t; cbn [sel]; lia].
+  - (* FlatInsertRv *)
+    eapply spec_on with (P := fun n' => n' <= cap); [exact Hinv| |lia].
+    apply spec_with_ext; [exact Hext|]. intros a1 H1.
+    apply spec_flat_emplace; [intros i; destruct t; pw|destruct t; cbn [sel]; lia|rewrite bsrc_ok_mv; pw|pw|pw|pw].
+  - (* FlatInsertCr *)
+    eapply spec_on with (P := fun n' => n' <= cap); [exact Hinv| |lia].
+    apply spec_with_ext; [exact Hext|]. intros a1 H1.
+    apply spec_flat_emplace; [intros i; destruct t; pw|destruct t; cbn [sel]; lia|cbn; pw|pw|pw|pw].
+  - (* FlatEmplace *)
+    eapply spec_on with (P := fun n' => n' <= cap); [exact Hinv| |lia].
+    apply spec_flat_emplace; [intros i; destruct t; pw|destruct t; cbn [sel]; lia|reflexivity|pw|pw|pw].
+  - (* FlatEraseKey *)
+    eapply spec_on with (P := fun n' => n' <= cap); [exact Hinv| |lia].
+    apply spec_with_ext; [exact Hext|]. intros a1 H1.
+    apply spec_flat_erase_key; [intros i; destruct t; pw|destruct t; cbn [sel]; lia].
 Qed.
 
 Lemma step_iv_inv s m o a : inv s a -> triple a (step_iv fl cap s m o) inv.
@@ -284,7 +314,7 @@ Proof.
   assert (Hext : forall j, a (Ext j) = false) by (intros j; pw).
   unfold step_iv. cbv zeta.
   destruct o as [t x|t x|t x|t|t pos x|t pos x|t pos k x|t pos xs|t pos xs|t pos x|t pos|t f l|t|t k|t k x|t k x|t xs
-                 | |t|t|t|t|t|t pid|t x|t|t|t|t x|t x|t x|t x|t x|t x|t|t];
+                 | |t|t|t|t|t|t pid|t x|t|t|t|t x|t x|t x|t x|t x|t x|t|t|t|t|t|t|t x|t x|t x|t x|t x|t x|t x|t x];
     try (apply triple_ret; exact Hinv).
   - (* PopBack *)
     eapply spec_on with (P := fun n' => n' = sel t s - 1 /\ 0 < sel t s); [exact Hinv| |destruct t; cbn [sel]; lia].
@@ -342,36 +372,22 @@ Proof.
     intros [] a4 H4. apply triple_ret. split.
     + destruct t; ptw.
     + destruct t; cbn [upd sel fst snd]; lia.
+  - (* IvCopyAssign *)
+    eapply spec_on with (P := fun n' => n' = sel (negb t) s); [exact Hinv| |destruct t; cbn [sel negb]; lia].
+    apply spec_iv_copy_assign; [intros i; destruct t; pw|intros i; destruct t; pw|destruct t; cbn; lia].
+  - (* IvMoveAssign *)
+    eapply triple_bind.
+    { apply spec_iv_move_assign with (c := cid t) (n := sel t s) (o := cid (negb t)) (m := sel (negb t) s);
+        [intros i; destruct t; pw|intros i; destruct t; pw|destruct t; cbn; lia]. }
+    intros r a3 [-> H3]. cbn [fst snd]. apply triple_ret. split.
+    + destruct t; ptw.
+    + destruct t; cbn [upd sel negb fst snd]; lia.
 Qed.
 
 Lemma step_inv s m o a : inv s a -> triple a (step fl cap iv s m o) inv.
 Proof. intros H. unfold step. destruct iv; [apply step_iv_inv|apply step_sv_inv]; exact H. Qed.
 
 (** * histories *)
-Definition no_fuel (steps : list (list event * oc (nat * nat))) : bool :=
-  forallb (fun st => match snd st with Fuel => false | _ => true end) steps.
-
-Definition events_of (steps : list (list event * oc (nat * nat))) : list event := concat (map fst steps).
-
-Lemma run_legal ops : forall s m a, inv s a ->
-  let r := run fl cap iv s m ops in
-  fst (brun a (events_of (fst (fst r)))) = true /\
-  no_fuel (fst (fst r)) = true /\
-  (completed (fst (fst r)) = true -> inv (snd (fst r)) (snd (brun a (events_of (fst (fst r)))))).
-Proof.
-  induction ops as [|o rest IH]; intros s m a Hinv; cbn [run].
-  - cbn. split; [reflexivity|]. split; [reflexivity|]. intros _. exact Hinv.
-  - pose proof (step_inv s m o a Hinv) as [H1 H2].
-    destruct (step fl cap iv s m o) as [evs [s'| |]] eqn:E; cbn [fst snd] in *.
-    + specialize (IH s' (exec_all m evs) _ H2). cbn zeta in IH. destruct IH as [I1 [I2 I3]].
-      unfold events_of, no_fuel, completed in *. cbn [map concat forallb fst snd].
-      rewrite brun_app. cbn [fst snd]. rewrite H1, I1, I2. split; [reflexivity|]. split; [reflexivity|].
-      exact I3.
-    + unfold events_of, no_fuel, completed. cbn [map concat forallb fst snd]. rewrite app_nil_r, H1.
-      split; [reflexivity|]. split; [reflexivity|]. discriminate.
-    + destruct H2.
-Qed.
-
 Lemma legal_final s a : inv s a -> legal a (final_events s) nothing.
 Proof.
   intros [Ha _]. unfold final_events, destructor.
@@ -382,28 +398,22 @@ Qed.
 
 (* every event up to the end of the history, or up to the contract violation that stops it, is legal *)
 Lemma prefix_wf ops : wf_trace (events_of (fst (fst (run fl cap iv (0, 0) [] ops)))) = true.
-Proof. apply wf_of_brun. apply (run_legal ops (0, 0) [] nothing inv_init). Qed.
+Proof. exact (gprefix_wf (step fl cap iv) inv (0, 0) [] eq_refl inv_init step_inv ops). Qed.
 
 Lemma never_out_of_fuel ops : no_fuel (fst (fst (run fl cap iv (0, 0) [] ops))) = true.
-Proof. apply (run_legal ops (0, 0) [] nothing inv_init). Qed.
+Proof. exact (gnever_out_of_fuel (step fl cap iv) inv (0, 0) [] inv_init step_inv ops). Qed.
 
 Lemma completed_lifecycle ops : history_completed fl cap iv ops = true ->
   wf_trace (trace fl cap iv ops) = true /\ all_dead (trace fl cap iv ops) = true.
-Proof.
-  intros Hc. unfold history_completed in Hc. unfold trace.
-  destruct (run_legal ops (0, 0) [] nothing inv_init) as [H1 [_ H3]]. specialize (H3 Hc).
-  fold (events_of (fst (fst (run fl cap iv (0, 0) [] ops)))).
-  set (r := run fl cap iv (0, 0) [] ops) in *.
-  assert (HL : legal nothing (events_of (fst (fst r)) ++ final_events (snd (fst r))) nothing).
-  { eapply legal_app; [split; [exact H1|apply same_refl]|apply legal_final; exact H3]. }
-  destruct HL as [L1 L2]. split; [apply wf_of_brun; exact L1|apply all_dead_of_brun; assumption].
-Qed.
+Proof. exact (gcompleted_lifecycle (step fl cap iv) final_events inv (0, 0) [] eq_refl inv_init step_inv legal_final ops). Qed.
 
 Lemma completed_each_location_once ops : history_completed fl cap iv ops = true ->
   forall l, once_each l (trace fl cap iv ops) /\
             constructions l (trace fl cap iv ops) = destructions l (trace fl cap iv ops).
-Proof.
-  intros Hc. destruct (completed_lifecycle ops Hc) as [H1 H2]. exact (wf_all_dead_once_each _ H1 H2).
-Qed.
+Proof. exact (gcompleted_each_location_once (step fl cap iv) final_events inv (0, 0) [] eq_refl inv_init step_inv legal_final ops). Qed.
+
+Lemma completed_verdict ops : history_completed fl cap iv ops = true ->
+  snd (run_case fl cap iv ops) = (true, 0).
+Proof. exact (gcompleted_verdict (step fl cap iv) final_events obs_vec inv (0, 0) [] eq_refl inv_init step_inv legal_final ops). Qed.
 
 End Hist.
